@@ -140,6 +140,14 @@ func UpdatePartialFromConfig(cfg *Config, updates map[string]any) (UpdateStatus,
 		return UpdateStatusFailed, fmt.Errorf("%w: %v", ErrUpdateFailed, err)
 	}
 
+	// A command-line override can mask an unworkable value: what gets written must verify too,
+	// because that is what the next start will load.
+	if err := cfg.verifyPersisted(); err != nil {
+		slog.Error("Updated config would not load on the next start", "error", err)
+		rollback()
+		return UpdateStatusFailed, fmt.Errorf("%w: %v", ErrUpdateFailed, err)
+	}
+
 	if err := cfg.persist(); err != nil {
 		slog.Error("Failed to persist updated config", "error", err)
 		rollback()
